@@ -322,7 +322,11 @@ pub fn run_c14(cfg: &ShardCfg, out: &mut ShardOut) {
             out.counters.inc("c14.no-program-generated");
             continue;
         };
-        let (v, nt) = run_case(&case, &mut out.counters, &cfg.work);
+        let mut stray = crate::json::Counters::default();
+        let Some((v, nt)) = crate::shard::case_guard(&mut stray, || run_case(&case, &mut out.counters, &cfg.work)) else {
+            out.counters.inc("case.abandoned-by-stray-panic-from-code-under-test");
+            continue;
+        };
         out.evaluations += 1;
         out.configs.insert((case.n, case.cap));
         out.counters.add("c14.commands", case.cmds.len() as u64);
